@@ -56,7 +56,13 @@ type Parser struct {
 
 // Next parses a single field from the reader. It returns false when there are no more fields to parse.
 func (r *Parser) Next(f *Field) bool {
-	if !r.fieldScanner.Next(f) {
+	// A chunk of input may contain no field at all (only comments, unknown fields or
+	// nothing but skipped blank lines), so keep scanning until a field or the end is found.
+	for !r.fieldScanner.Next(f) {
+		if r.fieldScanner.Err() != nil {
+			return false
+		}
+
 		if !r.inputScanner.Scan() {
 			// Do this to signal EOF, which bufio.Scanner suppresses.
 			if r.inputScanner.Err() == nil {
@@ -77,8 +83,6 @@ func (r *Parser) Next(f *Field) bool {
 		// have to worry about allocations and ownership, but also bigger and less frequent allocations
 		// are made, compared to the previous usage – allocations are now made per event, not per field value.
 		r.fieldScanner.Reset(r.inputScanner.Text())
-
-		return r.fieldScanner.Next(f)
 	}
 
 	return true
